@@ -33,7 +33,10 @@ ACCOUNT = "Assets:Okane Bank"
 FAMILIES = ["ICDT", "RCDT", "RDDT"]
 SUBFAMILIES = ["AUTT", "DAJT", "PMDD", "SALA", "STDO", "OTHR"]
 NAMES = ["Grocer Migros", "Herr Haus Okane", "ACME Payroll", "山田商店", "Landlord & Co", "OKANE VERSICHERUNGEN"]
-TXINFOS = ["Card purchase Coffee Bar ref 1", "Payment order 77", "Card purchase Book <Store> ref 2", "Standing order rent", "Credit"]
+TXINFOS = ["Card purchase Coffee Bar ref 1", "Payment order 77", "Card purchase Book <Store> ref 2", "Standing order rent", "Credit",
+           # text wrapped over two lines: `.` in a rewrite pattern does not cross the line break, so the capture rule
+           # `Card purchase (?P<payee>.*) ref \d+` must NOT match these (and nothing of the second line may reach the payee)
+           "Card purchase Bakery\n    Sun:Terrace  4 seats ref 12", "Card purchase Kiosk ref 3\nsecond line", "Payment\norder 78"]
 ENTRYINFOS = ["Credit", "Debit", "Account fee", "Batch payment", "fee reversal"]
 
 
